@@ -50,6 +50,9 @@ fn copy_atomic(src: &Path, dst: &Path) -> std::io::Result<()> {
     tmp.push(".copia-tmp");
     let tmp = PathBuf::from(tmp);
     std::fs::copy(src, &tmp)?;
+    // Flush the delivered bytes before the file can be named, so the archive
+    // (fsynced when it is written) never describes data that is not yet stable.
+    std::fs::File::open(&tmp)?.sync_all()?;
     std::fs::rename(&tmp, dst)
 }
 
